@@ -56,6 +56,7 @@ def worker(args):
     stats = Stats()
     out = {'violations': [], 'error': None, 'cases': 0}
     t0 = time.monotonic()
+    prop.deadline = t0 + args.budget
     j = args.widx
     n = 0
     try:
